@@ -3,29 +3,30 @@
 (* variables a, b, c - node anchors of differing selectivity, single steps, variable-length steps and two-step    *)
 (* chains with a leading unbounded expansion (the shape the inbound-reversal rule looks for), with conditions on  *)
 (* either endpoint.  Used under -simulate: every walk that ends in Emit prints one skeleton.                      *)
-(*   [opt, shape: "node" | "step" | "var" | "chain", x, y, xk, yk, sel, pv, dir]                                  *)
+(*   [opt, shape: "node" | "step" | "var" | "chain" | "chain3" (three hops), x, y, xk, yk, sel, pv, dir]                                  *)
 (*   xk, yk: kind of the endpoint (0: none); sel: 0 no condition, 1 condition on x, 2 on y, 3 on both;           *)
-(*   pv: bind a path variable; dir: "out" | "in" | "both"                                                         *)
+(*   pv: bind a path variable; dir: "out" | "in" | "both"; w: a WITH follows the clause, handing on every variable   *)
+(*   bound so far ("all") or only x ("x")                                                                         *)
 EXTENDS Integers, Sequences, FiniteSets, TLC, Json
 CONSTANTS MaxClauses, Shapes, Family
 VARIABLES q, emitted
 Vars == {"a", "b", "c"}
-Clause == [opt : BOOLEAN, shape : Shapes, x : Vars, y : Vars, xk : 0..2, yk : 0..2, sel : 0..3, pv : BOOLEAN, dir : {"out", "in", "both"}]
+Clause == [opt : BOOLEAN, shape : Shapes, x : Vars, y : Vars, xk : 0..2, yk : 0..2, sel : 0..3, pv : BOOLEAN, dir : {"out", "in", "both"}, w : {"none", "all", "x"}]
 Sane(c) == /\ c.x # c.y
            /\ (c.shape = "node") => (c.y = (CHOOSE v \in Vars : v # c.x) /\ c.yk = 0 /\ c.sel \in {0, 1} /\ ~c.pv /\ c.dir = "out")
-           /\ (c.shape # "chain") => c.dir # "both" \/ c.shape = "step"
+           /\ (c.shape \notin {"chain", "chain3"}) => c.dir # "both" \/ c.shape = "step"
 \* the anchor family, printed in full when Family = "anchors": two node anchors of every selectivity followed by a step
 \* between them - the shape the reordering rule works on
-NodeClause(v, k, sel) == [opt |-> FALSE, shape |-> "node", x |-> v, y |-> (CHOOSE w \in Vars : w # v), xk |-> k, yk |-> 0, sel |-> sel, pv |-> FALSE, dir |-> "out"]
-AnchorSeqsAll == {<<NodeClause(x, xk, s1), NodeClause(y, yk, s2), [opt |-> o, shape |-> sh, x |-> x, y |-> y, xk |-> 0, yk |-> 0, sel |-> 0, pv |-> pv, dir |-> d]>> :
+NodeClause(v, k, sel) == [opt |-> FALSE, shape |-> "node", x |-> v, y |-> (CHOOSE w \in Vars : w # v), xk |-> k, yk |-> 0, sel |-> sel, pv |-> FALSE, dir |-> "out", w |-> "none"]
+AnchorSeqsAll == {<<NodeClause(x, xk, s1), NodeClause(y, yk, s2), [opt |-> o, shape |-> sh, x |-> x, y |-> y, xk |-> 0, yk |-> 0, sel |-> 0, pv |-> pv, dir |-> d, w |-> "none"]>> :
                  x \in {"a", "b"}, y \in {"b", "c"}, xk \in 0..2, yk \in 0..2, s1 \in 0..1, s2 \in 0..1, sh \in {"step", "var"}, d \in {"out", "in"}, pv \in BOOLEAN, o \in BOOLEAN}
 AnchorSeqs == {s \in AnchorSeqsAll : s[1].x # s[2].x}
 ASSUME Family = "anchors" => \A s \in AnchorSeqs : PrintT(ToJson(s))
 Init == q = <<>> /\ emitted = FALSE
 Add == /\ Family = "random" /\ ~emitted /\ Len(q) < MaxClauses
-       /\ \E c \in Clause : Sane(c) /\ (q = <<>> => ~c.opt) /\ q' = Append(q, c)
+       /\ \E c \in Clause : Sane(c) /\ (q = <<>> => ~c.opt) /\ (Len(q) = MaxClauses - 1 => c.w = "none") /\ q' = Append(q, c)
        /\ UNCHANGED emitted
-Emit == /\ ~emitted /\ q # <<>>
+Emit == /\ ~emitted /\ q # <<>> /\ q[Len(q)].w = "none"
         /\ PrintT(ToJson(q)) /\ emitted' = TRUE /\ UNCHANGED q
 Next == Add \/ Emit
 Spec == Init /\ [][Next]_<<q, emitted>>
